@@ -188,6 +188,7 @@ type rthread struct {
 	started  bool
 	// role accounting (what the caller of the ring keeps between calls)
 	slice   []byte
+	filled  int
 	view    []byte
 	hasView bool
 	pending []byte
@@ -356,7 +357,7 @@ func (ep *ringEp) exec(t *rthread, call rcall) *rres {
 	b := ep.b
 	switch call.name {
 	case "write":
-		t.slice = nil
+		t.slice, t.filled = nil, 0
 		p := make([]byte, call.n)
 		o := ep.base + ep.produced
 		for j := range p {
@@ -368,7 +369,7 @@ func (ep *ringEp) exec(t *rthread, call rcall) *rres {
 			ep.produced += int64(n)
 		}
 	case "wwait":
-		t.slice = nil
+		t.slice, t.filled = nil, 0
 		p, wrapped, err := b.WriteWait(call.n)
 		r.err = errClass(err)
 		if err == nil {
@@ -385,12 +386,18 @@ func (ep *ringEp) exec(t *rthread, call rcall) *rres {
 			t.slice[j] = ringSrc(o + int64(j))
 		}
 		r.n, r.off = len(t.slice), o
+		t.filled = len(t.slice)
 	case "wcommit":
 		t.slice = nil
-		n, err := b.WriteCommit(call.n)
+		k := call.n
+		if k > t.filled { // a caller commits only what it has written
+			k = t.filled
+		}
+		n, err := b.WriteCommit(k)
 		r.n, r.err = n, errClass(err)
 		if err == nil {
 			ep.produced += int64(n)
+			t.filled = 0
 		}
 	case "read":
 		t.view, t.hasView, t.pending = nil, false, nil
@@ -631,8 +638,10 @@ func (ep *ringEp) needHave(t *rthread) (int64, int64) {
 		return 1, data
 	case "rwait":
 		return int64(t.cur.n), data
-	case "write", "wwait", "wcommit":
+	case "write", "wwait":
 		return int64(t.cur.n), space
+	case "wcommit":
+		return int64(min64(int64(t.cur.n), int64(t.filled))), space
 	}
 	return 0, 0
 }
